@@ -417,7 +417,107 @@ def iterative_cases(draw):
             'min_sep': draw(st.floats(4, 15))}
 
 
+def check_free_shape(case, ctx):
+    """A PSF model with a free shape parameter: every source is rendered
+    with its own width; the fit must recover it and the model / residual
+    images must be rendered with the *fitted* per-source values."""
+    from astropy.table import QTable
+    from photutils.datasets import make_model_image
+    from photutils.detection import DAOStarFinder
+    from photutils.psf import (CircularGaussianPRF, GaussianPRF,
+                               IterativePSFPhotometry, PSFPhotometry)
+    ny, nx = case['shape']
+    src = case['sources']
+    t = QTable()
+    t['x_0'] = [s[0] for s in src]
+    t['y_0'] = [s[1] for s in src]
+    t['flux'] = [s[2] for s in src]
+    if case['kind'] == 'circ':
+        model = CircularGaussianPRF(fwhm=case['fwhm0'])
+        names = ['fwhm']
+        t['fwhm'] = [s[3] for s in src]
+    else:
+        model = GaussianPRF(x_fwhm=case['fwhm0'], y_fwhm=case['fwhm0'])
+        names = ['x_fwhm', 'y_fwhm']
+        t['x_fwhm'] = [s[3] for s in src]
+        t['y_fwhm'] = [s[3] * s[4] for s in src]
+    with warnings.catch_warnings():
+        warnings.simplefilter('ignore')
+        img = np.asarray(make_model_image((ny, nx), model, t,
+                                          model_shape=(31, 31)), float)
+    fit_model = model.copy()
+    for nme in names:
+        getattr(fit_model, nme).fixed = False
+    fs = case['fit_shape']
+    init = QTable()
+    init['x'] = [s[0] + s[5] for s in src]
+    init['y'] = [s[1] + s[6] for s in src]
+    init['flux'] = [s[2] * 0.8 for s in src]
+    with warnings.catch_warnings():
+        warnings.simplefilter('ignore')
+        if case['iterative']:
+            ph = IterativePSFPhotometry(fit_model, (fs, fs),
+                                        DAOStarFinder(0.5, case['fwhm0']),
+                                        aperture_radius=4.0, maxiters=1)
+            res = ph(img, init_params=init)
+        else:
+            ph = PSFPhotometry(fit_model, (fs, fs), aperture_radius=4.0)
+            res = ph(img, init_params=init)
+        ctx.event('iterative' if case['iterative'] else 'single')
+        ctx.event(case['kind'])
+        if any(int(f) & 8 for f in res['flags']):
+            ctx.event('not_converged')
+            return
+        require(len(res) == len(src), 'row_count')
+        for k, s_ in enumerate(src):
+            for nme, true in zip(names, [s_[3], s_[3] * s_[4]]):
+                got = float(res[nme + '_fit'][k])
+                if abs(got - true) > 1e-4 * true:
+                    raise Violation('shape_recovery',
+                                    f'row {k}: {nme}_fit {got} vs rendered {true}')
+            xf, yf = float(res['x_fit'][k]), float(res['y_fit'][k])
+            ff = float(res['flux_fit'][k])
+            if abs(xf - s_[0]) > 1e-4 or abs(yf - s_[1]) > 1e-4 \
+                    or abs(ff / s_[2] - 1) > 1e-4:
+                raise Violation('recovery', f'row {k}: fit ({xf},{yf},{ff}) vs '
+                                f'rendered {s_[:3]} (free {names})')
+        peak = float(img.max())
+        resid = np.asarray(ph.make_residual_image(img, psf_shape=(31, 31)), float)
+        mimg = np.asarray(ph.make_model_image((ny, nx), psf_shape=(31, 31)), float)
+    distinct = max(abs(s_[3] - case['fwhm0']) for s_ in src) > 0.2
+    ctx.mark(distinct)
+    if not np.abs(resid).max() <= 1e-4 * peak:
+        raise Violation('residual', f'free {names}: residual '
+                        f'{np.abs(resid).max():.3g} vs peak {peak:.3g}: the '
+                        'model image does not use the fitted shape parameters')
+    if not np.abs(mimg - img).max() <= 1e-4 * peak:
+        raise Violation('model_image', f'free {names}: model image differs '
+                        f'from the scene by {np.abs(mimg - img).max():.3g}')
+
+
+@st.composite
+def free_shape_cases(draw):
+    ny, nx = draw(st.integers(40, 56)), draw(st.integers(40, 56))
+    n = draw(st.integers(1, 3))
+    cells = [(0.25, 0.25), (0.75, 0.72), (0.27, 0.75)]
+    src = []
+    for i in range(n):
+        src.append([cells[i][0] * nx + draw(st.floats(-2, 2)),
+                    cells[i][1] * ny + draw(st.floats(-2, 2)),
+                    draw(st.floats(100, 900)), draw(st.floats(2.2, 4.2)),
+                    draw(st.floats(0.8, 1.3)), draw(st.floats(-0.4, 0.4)),
+                    draw(st.floats(-0.4, 0.4))])
+    return {'shape': [ny, nx], 'sources': src,
+            'kind': draw(st.sampled_from(['circ', 'circ', 'ellip'])),
+            'fwhm0': draw(st.floats(2.5, 3.8)),
+            'fit_shape': draw(st.sampled_from([9, 11, 13])),
+            'iterative': draw(st.booleans())}
+
+
 SUBCHECKS = [
+    SubCheck('free_shape', free_shape_cases(), check_free_shape,
+             'non-trivial = some rendered width differs from the model '
+             'default by > 0.2 px', quick=(8, 30), thorough=(16, 600)),
     SubCheck('recovery', recovery_cases(), check_recovery,
              'non-trivial = a group whose members are not adjacent rows, or a '
              'masked / edge-truncated fit window', quick=(16, 100),
